@@ -121,8 +121,14 @@ pub fn strace_main(args: &[String]) -> i32 {
                                 }
                             }
                             2 => {
+                                // a foreign file under an id no blob ever had: after its quarantine pearl continues
+                                // numbering above it, so consecutive garbage ids are spaced far apart
                                 garbage += 1;
-                                let _ = std::fs::write(dir.join(format!("t.{}.blob", 60 + garbage)), rng.bytes_range(1, 100));
+                                let id = 1000 * garbage;
+                                let p = dir.join(format!("t.{}.blob", id));
+                                if !p.exists() && !dir.join("corrupted").join(format!("t.{}.blob", id)).exists() {
+                                    let _ = std::fs::write(p, rng.bytes_range(1, 100));
+                                }
                             }
                             _ => {}
                         }
@@ -482,6 +488,9 @@ pub fn shard(ctx: &Ctx) -> Shard {
         let mut cfg = random_cfg(&mut rng, p.n_keys, p.n_meta, Some(true));
         cfg.keylen = 8;
         cfg.validate_data = rng.chance(1, 2);
+        // a quarter of the histories: damaged blobs are left in place (ignore_corrupted) instead of being moved
+        // to corrupted/; their ids stay taken and their bytes stay untouched all the same
+        cfg.ignore_corrupted = rng.chance(1, 4);
         let ops = gen_history(&mut rng, &p);
         let case_seed = rng.next();
         let dir = new_dir("c07-");
@@ -501,6 +510,7 @@ pub fn shard(ctx: &Ctx) -> Shard {
                 sh.add("faults_fired", out.faults_fired);
                 sh.add("query_windows_checked", out.query_windows);
                 sh.add("init_failed_after_damage", out.init_failed);
+                sh.add(if cfg.ignore_corrupted { "histories_ignore_corrupted" } else { "histories_quarantine_mode" }, 1);
                 sh.max("max_blob_files", out.max_blobs);
                 if out.quarantines > 0 || out.faults_fired > 0 || out.max_blobs >= 2 {
                     sh.nontrivial.insert(fnv(format!("{}|{}", history_short(&ops), out.plan).as_bytes()));
